@@ -226,7 +226,7 @@ pub fn run(ctx: &Ctx) {
     );
 
     // generated frames ------------------------------------------------------------------
-    run_generated(ctx, "frame", ctx.tier.pick(200_000, 10_000_000), frame_strategy, |c, st| check_frame(c, st));
+    run_generated(ctx, "frame", ctx.tier.pick(1_000_000, 10_000_000), frame_strategy, |c, st| check_frame(c, st));
 }
 
 pub fn replay(part: &str, case: &Value) -> Result<(), String> {
